@@ -44,6 +44,7 @@ KIND = {
     "R03.6": "W",
     "R14.8": "W",
     "R06.9": "T",
+    "R07.11": "W",
     "SELF": "self-validation of the checker on single-edit variants of the current tree",
 }
 NAMES = {"S": "structural / dataflow analysis of the resolved program (all inputs)",
